@@ -110,7 +110,11 @@ class DAGNodeStorage:
     def exists_active_rec_subgraph(self, source: NodeId, dest: NodeId) -> bool:
         return self.processed_nodes.exists((source, dest))
 
+    def hide_switch_result(self, node_id: NodeId) -> None:
+        self.switch_results.hide(node_id)
+
     def hide_last_execution(self, *node_ids: NodeId) -> None:
         for node_id in node_ids:
             self.hide_processed_node(node_id)
             self.hide_node_result(node_id)
+            self.hide_switch_result(node_id)
